@@ -58,7 +58,7 @@ META['C04'] = dict(
   note=_ENG_NOTE + "specMove is transcribed by hand from doc/texinfo/navigation.texi. The two explicit panics of State.Down are excluded by hypothesis (C08).")
 META['C05'] = dict(
   text=("Kernel-checked: LOAD of a visible symbol is a no-op (no call); otherwise the cache after LOAD is Add(sym,result,uint16(size)) of the cache before and the external call touches neither cache, page nor position (refresh_keeps, "
-        "for any handler result); an oversize result is an error and the cache is unchanged; RELOAD applies Update (accepted values, also empty, are read back: updated_value_readable); mappings are dropped by every move and resume; "
+        "for any handler result); an oversize result is an error and the cache is unchanged; RELOAD applies Update (accepted values, also empty, are read back: updated_value_readable); mappings are dropped by every move and resume - MOVE, INCMP and, since fix 8eb052a, CATCH (catch_drops_mappings: no mapped symbol and no menu entry of the node that was left) -; "
         "scope lifetime from C09 (get_after_add under any number of pushes, pop_releases). Tie: engine + cache suites compare cache frames, sizes, use, last value and the call log per request."),
   note=_ENG_NOTE)
 META['C06'] = dict(
@@ -107,7 +107,7 @@ META['C11'] = dict(
   note=_DB_NOTE)
 
 META['C13'] = dict(
-  text=("Kernel-checked over an abstract transactional driver with numbered failing calls (Vise/PgTx.lean), for EVERY fault set, key, value and driver state: no operation of the wrapper panics (never_panics); a single-operation Put on an idle handle either "
+  text=("Kernel-checked over an abstract transactional driver with numbered failing calls - begin, statement, advance to a row, row scan, commit, rollback - (Vise/PgTx.lean), for EVERY fault set, key, value and driver state: no operation of the wrapper panics (never_panics); a single-operation Put on an idle handle either "
         "acknowledges and the value is committed, or reports an error and the committed table is exactly as before, and in both cases leaves no transaction open (put_single, put_leaves_no_tx, put_ack_committed, put_error_changes_nothing); "
         "a fault at any primitive call it makes is reported (put_fault_reports_error); without faults it succeeds (put_succeeds_without_faults: not wedged); Get/Start/Stop/Abort/Close leave no transaction open in single-operation mode; "
         "an all-successful explicit transaction commits the last value of every key at Stop and nothing at Abort (multi_stop_commits_all, multi_abort_commits_none, any number of writes); "
